@@ -493,115 +493,179 @@ func c04(p *core.Program, r *core.Report) {
 		return -1, "unknown"
 	}
 	nsrc := 0
+	// A source is a call that yields a decoded count: wkbcommon.ReadUInt32, and every decoder function that hands a
+	// count it decoded back to its caller (result index res). guardedInside: the count is returned only on paths
+	// that passed a recognised limit guard inside that function, so the caller's uses are covered by it.
+	type derived struct {
+		res           int
+		guardedInside bool
+	}
+	derivedSrc := map[*ssa.Function]derived{}
+	process := func(fn *ssa.Function, c ssa.CallInstruction, resIdx int, srcName string, inside bool) {
+		call, ok := c.(*ssa.Call)
+		if !ok {
+			return
+		}
+		nsrc++
+		var n ssa.Value
+		if call.Call.Signature().Results().Len() == 1 {
+			n = call
+		}
+		for _, rf := range eng.Referrers(call) {
+			if ex, ok := rf.(*ssa.Extract); ok && ex.Index == resIdx {
+				n = ex
+			}
+		}
+		if n == nil {
+			return
+		}
+		taint := eng.IntFlow(n)
+		// count itself: n and pure conversions/phis of it
+		count := map[ssa.Value]bool{n: true}
+		for v := range taint {
+			if eng.StripConv(v) == n {
+				count[v] = true
+			}
+		}
+		guards := countGuards(fn, count, helpers)
+		blocked := eng.EdgeSet{}
+		for _, g := range guards {
+			blocked[[2]int{g.block.Index, 1 - g.failEdge}] = true
+			for _, d := range g.disabled {
+				blocked[[2]int{d.Index, 1}] = true
+			}
+		}
+		reach := eng.Reachable(fn.Blocks[0], blocked)
+		// the count handed back to the caller
+		if fn.Parent() == nil && !(fn.Name() == "ReadUInt32" && core.FnPkgPath(fn) == mod+"/encoding/wkbcommon") {
+			for _, b := range fn.Blocks {
+				ret, isRet := b.Instrs[len(b.Instrs)-1].(*ssa.Return)
+				if !isRet {
+					continue
+				}
+				for ri, rv := range ret.Results {
+					if !count[rv] {
+						continue
+					}
+					d, had := derivedSrc[fn]
+					if !had {
+						d = derived{res: ri, guardedInside: true}
+					}
+					if reach[b] && !inside {
+						d.guardedInside = false
+					}
+					derivedSrc[fn] = d
+				}
+			}
+		}
+		sinks := eng.SizeSinks(taint, paramSinks)
+		// drop comparisons that are themselves limit guards
+		var real []eng.SizeSink
+		for _, s := range sinks {
+			if bo, ok := s.Instr.(*ssa.BinOp); ok {
+				if _, isL := limitLoad(bo.X); isL {
+					continue
+				}
+				if _, isL := limitLoad(bo.Y); isL {
+					continue
+				}
+			}
+			if cl, ok := s.Instr.(*ssa.Call); ok {
+				if _, isH := helpers[cl.Call.StaticCallee()]; isH {
+					continue // the call that performs the limit check
+				}
+			}
+			real = append(real, s)
+		}
+		if len(real) == 0 {
+			return
+		}
+		ord := ordinalOf(fn, c)
+		byKind := map[string][]eng.SizeSink{}
+		for _, s := range real {
+			byKind[s.Kind] = append(byKind[s.Kind], s)
+		}
+		var kinds []string
+		for k := range byKind {
+			kinds = append(kinds, k)
+		}
+		sort.Strings(kinds)
+		want, what := expectLevel(fn, call)
+		for _, kind := range kinds {
+			key := fmt.Sprintf("%s/%s#%d/%s", short(fn), srcName, ord, kind)
+			pos := p.Pos(byKind[kind][0].Instr.Pos())
+			if pos == "-" || pos == "" {
+				pos = p.Pos(call.Pos())
+			}
+			if inside {
+				r.OK(rule1, key, pos, true, "the count was checked against the limit inside "+srcName+" before it was returned")
+				continue
+			}
+			// documented exemption: WKB GeometryCollection part loop
+			if kind == "loop" && short(fn) == "encoding/wkb.Read" && what == "GeometryCollection parts" && len(guards) == 0 {
+				onlyLoops := true
+				for _, k2 := range kinds {
+					if k2 != "loop" {
+						onlyLoops = false
+					}
+				}
+				if onlyLoops {
+					r.OK(rule1, key, pos, true, "exempt: the WKB GeometryCollection part count bounds a loop that allocates nothing proportional to it (no make/call sized by it; each iteration consumes >= 5 input bytes); the property's anchor lists only EWKB collections")
+					continue
+				}
+			}
+			bad := ""
+			for _, s := range byKind[kind] {
+				if reach[s.Instr.Block()] {
+					bad = fmt.Sprintf("%s sized/bounded by the decoded count at %s is reachable without passing `limit >= 0 && int(n) > limit` on that count", kind, p.Pos(s.Instr.Pos()))
+					break
+				}
+			}
+			if bad == "" && len(guards) == 0 {
+				bad = "no limit guard on this count"
+			}
+			if bad == "" {
+				for _, g := range guards {
+					if ok, why := failEdgeReturnsTooLarge(g); !ok {
+						bad = "guard's fail edge: " + why
+					}
+					if g.level != want {
+						bad = fmt.Sprintf("count of %s is tested against MaxGeometryElements[%d], the level table requires %d", what, g.level, want)
+					}
+				}
+			}
+			if bad != "" {
+				r.Bad(rule1, key, pos, bad)
+			} else {
+				r.OK(rule1, key, pos, true, fmt.Sprintf("guarded by MaxGeometryElements[%d] (%s); sink unreachable after pass-edge deletion; fail edge returns ErrGeometryTooLarge{Level:%d}", want, what, want))
+			}
+		}
+	}
 	for _, fn := range fns {
 		for _, c := range eng.Calls(fn) {
-			if !eng.IsCallTo(c, mod+"/encoding/wkbcommon", "ReadUInt32") {
-				continue
+			if eng.IsCallTo(c, mod+"/encoding/wkbcommon", "ReadUInt32") {
+				process(fn, c, 0, "ReadUInt32", false)
 			}
-			call, ok := c.(*ssa.Call)
-			if !ok {
-				continue
+		}
+	}
+	// counts handed on by decoder functions (two levels of wrappers)
+	doneDerived := map[*ssa.Function]bool{}
+	for round := 0; round < 2; round++ {
+		var todo []*ssa.Function
+		for f := range derivedSrc {
+			if !doneDerived[f] {
+				todo = append(todo, f)
 			}
-			nsrc++
-			var n ssa.Value
-			for _, rf := range eng.Referrers(call) {
-				if ex, ok := rf.(*ssa.Extract); ok && ex.Index == 0 {
-					n = ex
-				}
-			}
-			if n == nil {
-				continue
-			}
-			taint := eng.IntFlow(n)
-			// count itself: n and pure conversions/phis of it
-			count := map[ssa.Value]bool{n: true}
-			for v := range taint {
-				if eng.StripConv(v) == n {
-					count[v] = true
-				}
-			}
-			sinks := eng.SizeSinks(taint, paramSinks)
-			// drop comparisons that are themselves limit guards
-			var real []eng.SizeSink
-			for _, s := range sinks {
-				if bo, ok := s.Instr.(*ssa.BinOp); ok {
-					if _, isL := limitLoad(bo.X); isL {
-						continue
+		}
+		sort.Slice(todo, func(i, j int) bool { return todo[i].String() < todo[j].String() })
+		for _, f := range todo {
+			doneDerived[f] = true
+			d := derivedSrc[f]
+			for _, fn := range fns {
+				for _, c := range eng.Calls(fn) {
+					if eng.StaticCallee(c) == f {
+						process(fn, c, d.res, f.Name(), d.guardedInside)
 					}
-					if _, isL := limitLoad(bo.Y); isL {
-						continue
-					}
-				}
-				if cl, ok := s.Instr.(*ssa.Call); ok {
-					if _, isH := helpers[cl.Call.StaticCallee()]; isH {
-						continue // the call that performs the limit check
-					}
-				}
-				real = append(real, s)
-			}
-			if len(real) == 0 {
-				continue
-			}
-			ord := ordinalOf(fn, c)
-			guards := countGuards(fn, count, helpers)
-			blocked := eng.EdgeSet{}
-			for _, g := range guards {
-				blocked[[2]int{g.block.Index, 1 - g.failEdge}] = true
-				for _, d := range g.disabled {
-					blocked[[2]int{d.Index, 1}] = true
-				}
-			}
-			reach := eng.Reachable(fn.Blocks[0], blocked)
-			byKind := map[string][]eng.SizeSink{}
-			for _, s := range real {
-				byKind[s.Kind] = append(byKind[s.Kind], s)
-			}
-			var kinds []string
-			for k := range byKind {
-				kinds = append(kinds, k)
-			}
-			sort.Strings(kinds)
-			want, what := expectLevel(fn, call)
-			for _, kind := range kinds {
-				key := fmt.Sprintf("%s/ReadUInt32#%d/%s", short(fn), ord, kind)
-				pos := p.Pos(byKind[kind][0].Instr.Pos())
-				// documented exemption: WKB GeometryCollection part loop
-				if kind == "loop" && short(fn) == "encoding/wkb.Read" && what == "GeometryCollection parts" && len(guards) == 0 {
-					onlyLoops := true
-					for _, k2 := range kinds {
-						if k2 != "loop" {
-							onlyLoops = false
-						}
-					}
-					if onlyLoops {
-						r.OK(rule1, key, pos, true, "exempt: the WKB GeometryCollection part count bounds a loop that allocates nothing proportional to it (no make/call sized by it; each iteration consumes >= 5 input bytes); the property's anchor lists only EWKB collections")
-						continue
-					}
-				}
-				bad := ""
-				for _, s := range byKind[kind] {
-					if reach[s.Instr.Block()] {
-						bad = fmt.Sprintf("%s sized/bounded by the decoded count at %s is reachable without passing `limit >= 0 && int(n) > limit` on that count", kind, p.Pos(s.Instr.Pos()))
-						break
-					}
-				}
-				if bad == "" && len(guards) == 0 {
-					bad = "no limit guard on this count"
-				}
-				if bad == "" {
-					for _, g := range guards {
-						if ok, why := failEdgeReturnsTooLarge(g); !ok {
-							bad = "guard's fail edge: " + why
-						}
-						if g.level != want {
-							bad = fmt.Sprintf("count of %s is tested against MaxGeometryElements[%d], the level table requires %d", what, g.level, want)
-						}
-					}
-				}
-				if bad != "" {
-					r.Bad(rule1, key, pos, bad)
-				} else {
-					r.OK(rule1, key, pos, true, fmt.Sprintf("guarded by MaxGeometryElements[%d] (%s); sink unreachable after pass-edge deletion; fail edge returns ErrGeometryTooLarge{Level:%d}", want, what, want))
 				}
 			}
 		}
